@@ -243,6 +243,7 @@ def run(ctx):
 
     endpoint_no_use_after_finish(ctx, prog, "R8.no-event-access-after-wake", EV)
     endpoint_receiver_drop(ctx, prog, "R6.release-and-waker-balance", EV, "local_receiver::LocalReceiverCore")
+    endpoint_sender_drop(ctx, prog, "R9.transition-on-every-path", EV, "local_sender::LocalSenderCore")
 
     # ---------------- R3
     for name, b in sorted(fn.items()):
@@ -491,3 +492,18 @@ def _src(d, blk):
     from ..analysis import discr_source
     l = op_local(blk.term["discr"])
     return discr_source(d, l) if l is not None else {}
+
+
+def endpoint_sender_drop(ctx, prog, rid, event_prefix, sender_suffix):
+    """The sender endpoint's Drop performs the disconnect transition exactly once on every path (no early exit, e.g. while
+    panicking): a sender that vanishes silently leaves the receiver waiting forever."""
+    drops = [b for b in prog.bodies if b.impl_trait and b.impl_trait.endswith("ops::Drop") and b.impl_adt and b.impl_adt.endswith(sender_suffix) and b.name == "drop"]
+    if not drops:
+        ctx.missing(rid, f"Drop for {sender_suffix}")
+        return
+    d = drops[0]
+    ctx.fn(d)
+    fin = [(bb, t) for bb, t in d.calls() if t["callee"].get("method") == "sender_dropped_without_set" and not d.blocks[bb].cleanup]
+    pc = path_count(d, [bb for bb, _ in fin]) if fin else (0, 0)
+    ctx.ob(rid, f"{sender_suffix.split('::')[-1]}.drop.always-disconnects", pc == (1, 1), d.loc(),
+           f"sender_dropped_without_set calls per normal path (min,max)={pc}")
